@@ -1639,6 +1639,11 @@ def run(ctx):
         "model) and Python's evaluation of the rewritten text are not modelled; the "
         "interpreted StrFunctionCoefficient and try_parse are additionally checked against "
         "Python eval; the compiled path cannot run here (no filelock/cython in /venv)",
+        "composite coefficients: ffun / sfun / xfun of Model/C06_args.v stand for the wrapped "
+        "Python function, the evaluated expression of a string coefficient and an "
+        "argument-free leaf (assumed to depend only on t and the argument lookups); "
+        "the correspondence instantiates them with integer-linear leaves and Gaussian-"
+        "integer arithmetic",
         "construction isolation (coefficients do not follow later in-place edits of the "
         "arrays / dicts they were built from) is an implementation-level oracle plus the "
         "np.shares_memory flag of the InterCoefficient correspondence (model: "
@@ -1926,6 +1931,18 @@ def run(ctx):
         "statements hold unconditionally for the code's own path. The rules before fixes "
         "b254917 / 4ce1843 survive as old_call / old_NQ / old_NF in two witness Examples; "
         "the witnesses stay in the correspondence stream as regression cases. "
+        "Polynomial pieces (Props/C06_poly.v): the Horner loop is polynomial evaluation for "
+        "every order; _call equals the piecewise-polynomial specification spec_eval (powers of "
+        "t - t_k, cell by linear scan, constant outside) for every order, grid and t; "
+        "continuity at a knot reduces to the pieces joining there, proved for order 1 and "
+        "validated numerically for scipy's pieces (orders 2-5, boundary conditions natural / "
+        "clamped / not-a-knot); spec_eval is compared exactly with the real class on the "
+        "exact stream (orders 0-1 via __init__, 1-5 via restore). "
+        "Argument histories (Props/C06_args.v): for coefficients composed with + * conj norm "
+        "from function / string / argument-free leaves, after any history of "
+        "replace_arguments and any call-time arguments every leaf sees, for each name it "
+        "accepts, the last value given anywhere, else its construction value; tied to the "
+        "real classes by exact comparison on generated trees and histories. "
         "String path (Props/C06_str.v): for every word list, args dictionary and typing, "
         "the expression rewritten by parse(), read with the variables and ordered constants "
         "it returns, denotes word for word what the original denotes (temporaries numbered "
